@@ -26,9 +26,15 @@ def main():
     run_all = "--all" in sys.argv
     confirm_only = "--confirm-only" in sys.argv
     detect_only = "--detect-only" in sys.argv
-    wt = f"/tmp/seed/{prop}"
+    base = "/tmp/seed"
+    tag = ""
+    if "--base" in sys.argv:
+        base = sys.argv[sys.argv.index("--base") + 1]
+    if "--tag" in sys.argv:
+        tag = sys.argv[sys.argv.index("--tag") + 1]
+    wt = f"{base}/{prop}"
     src = f"{wt}/SEED/{variant}"
-    dest = f"/verif/seeded/{prop}-{variant}"
+    dest = f"/verif/seeded/{prop}-{tag}{variant}"
     if not os.path.exists(src + "/patch.diff"):
         src = dest
     patch = os.path.abspath(src + "/patch.diff")
@@ -51,6 +57,7 @@ def main():
             feats.append("rayon")
         featarg = ("--features " + ",".join(feats)) if feats else ""
         tname = f"seed_demo_{variant}"
+        demotxt_is_b = variant
         run(f"git apply {patch}", wt)
         rc_suite, out_suite = run("cargo test --offline 2>&1 | grep -E '^test result|FAILED|^error' | head -20", wt)
         suite_ok = "FAILED" not in out_suite and "error" not in out_suite and out_suite.count("test result: ok") >= 3
